@@ -435,6 +435,18 @@ class Walker:
             ws = self.assign(ws, names)
             if attrs:
                 ws = [self.kill(w, attrs) for w in ws]
+            # a flag: NAME = True / False / None / 0 / '' ... is a fact about NAME from here on
+            if len(s.targets) == 1 and isinstance(s.targets[0], ast.Name) and isinstance(s.value, ast.Constant) \
+                    and isinstance(s.value.value, (bool, int, str, type(None))):
+                k = ('name', s.targets[0].id)
+                out = []
+                for w in ws:
+                    d = dict(w.atoms)
+                    d[k] = bool(s.value.value)
+                    if s.value.value is None or isinstance(s.value.value, bool):
+                        d[('eq', s.targets[0].id, repr(s.value.value))] = True
+                    out.append(World(w.asg, d, w.weak, w.state))
+                ws = out
             return ws, [], []
         if isinstance(s, ast.AugAssign):
             ws = self.ev(s.value, ws, s)
@@ -541,10 +553,12 @@ class Walker:
                 names_in_target(s.target, names)
                 nxt = self.assign(nxt, names)
             body_in = merge(nxt)
+        # the worlds at the end of a pass hold facts established in that pass (atoms of a name are dropped where it is assigned):
+        # they are true when the loop is left from there
         if isinstance(s, ast.While):
-            done = [x for w in after for x in assume(self.kill(w, killed), s.test, False)]
+            done = [x for w in after for x in assume(w, s.test, False)]
         else:
-            done = [self.kill(w, killed) for w in after]
+            done = list(after)
         if s.orelse:
             els, b2, c2 = self.block(s.orelse, merge(done + zero))
         else:
